@@ -41,24 +41,22 @@ def trips(path, body_path, fid=None):
     for (f, h), arr in by.items():
         widened_at = None
         for n, (i, x) in enumerate(arr):
-            nxt = arr[n + 1] if n + 1 < len(arr) else None
-            if nxt is not None:
-                # an arrival at an enclosing loop's header in between: the loop was left and entered again
-                outer = set(x[6]) if len(x) > 6 else set()
-                if any(k == "e" and y[0] == "loophead" and y[2] == body_path and y[3] == f and y[1] in outer for k, y in path.trace[i + 1:nxt[0]]):
-                    nxt = None
-            if nxt is None and n + 1 < len(arr):
-                # the segment up to the re-entry belongs to the enclosing loop
-                end = i + 1
-                while end < len(path.trace) and not (path.trace[end][0] == "e" and path.trace[end][1][0] == "loophead" and path.trace[end][1][2] == body_path
-                                                    and path.trace[end][1][3] == f and path.trace[end][1][1] in (set(x[6]) if len(x) > 6 else set())):
-                    end += 1
-            else:
-                end = nxt[0] if nxt else len(path.trace)
+            outer = set(x[6]) if len(x) > 6 else set()
+            # the trip ends at the next arrival at this header (completed) or at an enclosing loop's header (loop left)
+            end, nxt = len(path.trace), None
+            for j in range(i + 1, len(path.trace)):
+                k, y = path.trace[j]
+                if k == "e" and y[0] == "loophead" and y[2] == body_path and y[3] == f:
+                    if y[1] == h:
+                        end, nxt = j, y
+                        break
+                    if y[1] in outer:
+                        end = j
+                        break
             items = path.trace[i + 1:end]
             # a trip is general if the widening happened at this arrival (the widen event precedes the loophead event)
             general = i > 0 and path.trace[i - 1][0] == "e" and path.trace[i - 1][1][0] == "widen" and path.trace[i - 1][1][1] == h
-            post = nxt[1][4] if nxt else None
+            post = nxt[4] if nxt is not None else None
             out.append(Trip(h, f, x[5] if x[5] is not None else x[4], post, items, general, i))
     out.sort(key=lambda t: t.index)
     return out
